@@ -14,6 +14,7 @@ const PATHS: &[&str] = &["", "/", "a", "a/b", "/a/b", "//a", "a:b", "./a:b", "/.
 const QS: &[Option<&str>] = &[None, Some(""), Some("q")];
 const FS: &[Option<&str>] = &[None, Some(""), Some("f")];
 const OPS: &[&str] = &[
+    "auth:%68", "auth:u@%68:1", "auth:U@h:1", "query:%71", "frag:%66", "path:%61", "path:/%61/b", "path:a/./b", "scheme:S",
     "scheme-", "scheme:t", "scheme:longer-scheme", "auth-", "auth:", "auth:h2", "auth:u:p@[::1]:8080", "auth:\u{e9}.org", "path:", "path:/", "path:x",
     "path:x/y", "path:/x/y", "path://x", "path://", "path:x:y", "path:x:y/z", "path::x", "path:1:x", "path:%41:b", "path:./x", "path:/./x", "path:../x",
     "path:\u{e9}/\u{e9}", "path:-x:y", "path:a/b:c", "query-", "query:", "query:k=v", "query:?/?", "frag-", "frag:", "frag:frag", "frag:?/",
@@ -57,7 +58,25 @@ pub fn generate(ctx: &mut Ctx) {
         o.max_segs = 20;
         o.bad_pct = rng.chance(1, 4);
         let init = gen::reference(&mut rng, o);
-        let op = match rng.below(12) {
+        let cur = crate::model::split(init.as_bytes());
+        let txt = |x: Option<&[u8]>| x.map(|b| String::from_utf8_lossy(b).to_string());
+        let op = match rng.below(16) {
+            // a different spelling of the CURRENT value (equal under the library's ==): must still be written
+            12 => match txt(cur.authority) {
+                Some(a) if !a.contains('[') => {
+                    let (ui, rest) = match a.find('@') { Some(i) => (Some(a[..i].to_string()), a[i + 1..].to_string()), None => (None, a.clone()) };
+                    let (h, pt) = match rest.find(':') { Some(i) => (rest[..i].to_string(), Some(rest[i + 1..].to_string())), None => (rest.clone(), None) };
+                    let mut s = String::new();
+                    if let Some(u) = ui { s.push_str(&gen::respell_component(&mut rng, &u, false)); s.push('@'); }
+                    s.push_str(&gen::respell_component(&mut rng, &h, false));
+                    if let Some(p) = pt { s.push(':'); s.push_str(&p); }
+                    format!("auth:{}", s)
+                }
+                _ => "auth:ex%61mple.org".to_string(),
+            },
+            13 => format!("path:{}", gen::respell_path(&mut rng, &String::from_utf8_lossy(cur.path))),
+            14 => match txt(cur.query) { Some(q) => format!("query:{}", gen::respell_component(&mut rng, &q, false)), None => "query:%41".to_string() },
+            15 => match txt(cur.fragment) { Some(f) => format!("frag:{}", gen::respell_component(&mut rng, &f, false)), None => "frag:%7e".to_string() },
             0 => "scheme-".to_string(),
             1 => format!("scheme:{}", gen::scheme(&mut rng)),
             2 => "auth-".to_string(),
